@@ -521,6 +521,8 @@ pub struct Stats {
     pub probes: BTreeMap<String, u64>,
     pub getrandom: u64,
     pub log: u64,
+    /// invocations that wrote at least one file or had a fault fire
+    pub effects: u64,
 }
 
 impl Stats {
@@ -534,6 +536,7 @@ impl Stats {
         self.hangs += o.hangs;
         self.ops += o.ops;
         self.getrandom += o.getrandom;
+        self.effects += o.effects;
         for (k, v) in &o.faults {
             *self.faults.entry(k.clone()).or_default() += v;
         }
@@ -632,6 +635,9 @@ pub fn run_history(root: &str, scn: &mut Scn, oracle: &mut Oracle, st: &mut Stat
         if let Some(f) = check_strict(&e, &rec, &before, &rec_after, i) {
             return Some(f);
         }
+        if rec_after != before {
+            st.effects += 1;
+        }
         let mut final_after = rec_after.clone();
         if inv.class != FaultClass::None {
             // choose the plan from the recorded trace, rewind the disk, run again with faults
@@ -648,6 +654,9 @@ pub fn run_history(root: &str, scn: &mut Scn, oracle: &mut Oracle, st: &mut Stat
                 st.invocations += 1;
                 st.ops += fo.ops.len() as u64;
                 count_faults(st, &fo);
+                if fo.faults_fired > 0 {
+                    st.effects += 1;
+                }
                 if fo.out.timed_out {
                     st.hangs += 1;
                     return None;
@@ -995,10 +1004,11 @@ pub fn main_c19(tier_name: &str, seed: u64) -> i32 {
             let mut r = Rng::derive(seed, prng::D_GEN, i as u64);
             let mut scn = c19gen::gen_scn(&d, &mut r, faulty);
             let before_judged = st.judged;
+            let before_effects = st.effects;
             let f = run_history(&root, &mut scn, &mut oracle, &mut st);
             let mut fd = Fnv::new();
             fd.str(&serde_json::to_string(&scn).unwrap());
-            digests.push((fd.0, st.judged > before_judged));
+            digests.push((fd.0, st.judged > before_judged && st.effects > before_effects));
             if i % 997 == 0 && samples.len() < 3 {
                 samples.push(json!({"scenario_index": i, "files": scn.files.keys().collect::<Vec<_>>(), "invocations": scn.invs.iter().map(|x| format!("asca {} [class {:?} plan {}]", x.cmd.argv().join(" "), x.class, cli::plan_string(&x.plan))).collect::<Vec<_>>()}));
             }
@@ -1144,7 +1154,7 @@ pub fn main_c19(tier_name: &str, seed: u64) -> i32 {
         level: "exploration".into(),
         evaluations: st.invocations,
         distinct_nontrivial: distinct.len() as u64,
-        rule: "a case is one history (project files + 1-6 invocations + fault plans); distinct by digest of the explicit scenario including the drawn plans; non-trivial when at least one invocation was executed and judged against the reference model".into(),
+        rule: "a case is one history (project files + 1-6 invocations + fault plans); distinct by digest of the explicit scenario including the drawn plans; non-trivial when at least one invocation was judged against the reference model AND changed the simulated disk or had an injected fault fire".into(),
         samples,
         exhaustive: false,
         extra,
